@@ -70,6 +70,42 @@ def splitOutcome (toks : List String) : List String × List String :=
   let post := (toks.dropWhile (· != "=>")).drop 1
   (pre, post)
 
+/-! ### outcomes of failing calls
+
+No property says WHICH error a failing call reports, only THAT it fails ("… is an error",
+"fails without any effect", "is rejected").  The harness still attaches a class to every error
+(derived from `errors.Is` on exported sentinels where they exist, otherwise from the message
+text); that class is *informational*: a patch which merely rewords error messages moves every
+class to `other`, and a check that compared classes would raise an alarm on code for which the
+property still holds.  Hence every driver compares outcomes through `sameOutcome` — "ok" against
+"not ok" — and reports the implementation's class only as a histogrammed flag (`classFlag`).
+Model state never depends on the implementation's class. -/
+
+/-- `implTok`, `modelTok`: outcome tokens, `"ok"` = the call succeeded, anything else = the
+    class of the error it returned.  Agreement = both succeed or both fail (for whatever reason,
+    in whatever words). -/
+def sameOutcome (implTok modelTok : String) : Bool := (implTok == "ok") == (modelTok == "ok")
+
+/-- the recorded outcome is a single token that agrees with the model's (ok vs failure) -/
+def outcomeAgrees (post : List String) (modelTok : String) : Bool :=
+  match post with
+  | [t] => sameOutcome t modelTok
+  | _ => false
+
+/-- informational flag for an `ok` reply: the class the harness attached to the implementation's
+    error (`g1:cat` becomes `errclass-g1-cat=1`) -/
+def classFlag (implTok : String) : String :=
+  s!"errclass-{implTok.replace ":" "-"}=1"
+
+/-- reply for a write operation on which model and implementation agree: `ok …flags` when it
+    succeeded, `ok failed=1 errclass-…=1 …flags` when both failed -/
+def agreedReply (implTok : String) (flags : String := "") : String :=
+  let tail := if flags.isEmpty then "" else " " ++ flags
+  if implTok == "ok" then "ok" ++ tail else s!"ok failed=1 {classFlag implTok}" ++ tail
+
+/-- reply for a query that failed on both sides -/
+def agreedErr (implTok : String) : String := s!"ok err {classFlag implTok}"
+
 /-- A stream handler: one per property family. `σ` is the model state of one case. -/
 structure Handler where
   name : String
